@@ -29,6 +29,7 @@ RULE = (
     "characters, value lists up to 40, up to 11 detections, conditions with up to 20 leaves). Non-trivial = >= 2 distinct atoms and >= 1 boolean "
     "operator."
 )
+RULE += (" " + 'Configurations also vary field-reference quoting per side (field_equals_field_escaping_quoting in all four settings; unquoted slots are delimited by the target language).')
 ASSUMPTIONS = [
     "vf/ref (strings, modifiers, conditions, rules) is the Sigma specification",
     "atoms are independent: two sides are equivalent iff they are the same boolean function of the same predicates",
